@@ -3824,8 +3824,10 @@ func (t *VariableSizedType) IsEquatable() bool {
 	return t.Type.IsEquatable()
 }
 
-func (t *VariableSizedType) IsComparable() bool {
-	return t.Type.IsComparable()
+func (*VariableSizedType) IsComparable() bool {
+	// Arrays are not comparable (ordered), even if their elements are:
+	// Array values do not support the comparison operations.
+	return false
 }
 
 func (t *VariableSizedType) ContainFieldsOrElements() bool {
@@ -4033,8 +4035,10 @@ func (t *ConstantSizedType) IsEquatable() bool {
 	return t.Type.IsEquatable()
 }
 
-func (t *ConstantSizedType) IsComparable() bool {
-	return t.Type.IsComparable()
+func (*ConstantSizedType) IsComparable() bool {
+	// Arrays are not comparable (ordered), even if their elements are:
+	// Array values do not support the comparison operations.
+	return false
 }
 
 func (t *ConstantSizedType) ContainFieldsOrElements() bool {
